@@ -17,6 +17,7 @@ import (
 	"github.com/cosmos/cosmos-proto/zzverif/glue"
 	"google.golang.org/protobuf/encoding/protojson"
 	"google.golang.org/protobuf/encoding/prototext"
+	"google.golang.org/protobuf/encoding/protowire"
 	"google.golang.org/protobuf/proto"
 	"google.golang.org/protobuf/reflect/protoreflect"
 	"google.golang.org/protobuf/runtime/protoiface"
@@ -493,6 +494,54 @@ func aliasCase(rep *Report, arena *guardArena, s *glue.Subject, d MD, idx int) {
 		rep.Violate("C07", "alias/marshal-output-aliases-message", tn, oc.name+": changing the message's byte slices changed the bytes returned earlier", rc)
 	}
 	rep.Count("C07", "output-alias-checks/"+oc.name, 1)
+
+	// ---- (c1) a message that holds nothing but unknown fields: what Marshal hands out is still a copy, not the
+	// message's own unknown-field buffer
+	if idx%4 == 1 {
+		only := newOf(s.Zero)
+		od := only.ProtoReflect().Descriptor()
+		num := protowire.Number(536870000)
+		for od.Fields().ByNumber(num) != nil || od.ExtensionRanges().Has(num) {
+			num--
+		}
+		raw := protowire.AppendVarint(protowire.AppendTag(nil, num, protowire.VarintType), uint64(idx)+1)
+		raw = protowire.AppendBytes(protowire.AppendTag(raw, num, protowire.BytesType), []byte("nothing-but-unknown"))
+		if idx%8 == 1 {
+			_ = proto.Unmarshal(raw, only) // the buffer as the decoder leaves it (spare capacity after several records)
+		} else {
+			only.ProtoReflect().SetUnknown(append(make([]byte, 0, len(raw)+64), raw...))
+		}
+		entries := []outcase{
+			{"proto.Marshal", func() ([]byte, error) { return plainOpts.Marshal(only) }},
+			{"Marshal(det)", func() ([]byte, error) { return detOpts.Marshal(only) }},
+			{"MarshalAppend(nil)", func() ([]byte, error) { return plainOpts.MarshalAppend(nil, only) }},
+			{"ProtoMethods.Marshal(Buf=nil)", func() ([]byte, error) {
+				pm := only.ProtoReflect().ProtoMethods()
+				if pm == nil || pm.Marshal == nil {
+					return plainOpts.Marshal(only)
+				}
+				o, e := pm.Marshal(protoiface.MarshalInput{Message: only.ProtoReflect()})
+				return o.Buf, e
+			}},
+		}
+		for _, en := range entries {
+			var o []byte
+			var e error
+			if pan, _ := safely(func() { o, e = en.f() }); pan || e != nil || len(o) == 0 {
+				continue
+			}
+			before := append([]byte{}, only.ProtoReflect().GetUnknown()...)
+			for i := range o {
+				o[i] ^= 0xff
+			}
+			o = append(o, 0xEE, 0xEE, 0xEE, 0xEE) // the caller goes on using its bytes
+			rep.Count("C07", "output-alias-checks/unknown-only-message", 1)
+			if !bytes.Equal(only.ProtoReflect().GetUnknown(), before) {
+				rep.Violate("C07", "alias/marshal-output-aliases-message", tn, en.name+" of a message holding only unknown fields: writing to the returned bytes changed the message's unknown fields", rc)
+				break
+			}
+		}
+	}
 
 	// ---- (e) decoding into a message that is already in use.  The input may be the very buffer one of the message's
 	// own bytes fields (or its unknown-field set) still refers to ("unwrap in place"): Unmarshal must not write into it.
